@@ -459,3 +459,5 @@ def run(ctx):
     r4(ctx)
     r5(ctx)
     r6(ctx)
+    from .c07 import r5 as marker_recorded
+    marker_recorded(ctx, rule="C03.R7")
